@@ -39,7 +39,8 @@ Definition wit_bounds_stmt (fx : fixes) : Prop :=
     senv_ok c se -> type_of m = ROk t ->
     bounded se (sat_data (ext_of_gen fx c m)) (snd (sat_dissat ke se mall rhs m)).
 
-(* ------------------------------------------------------------------ refutations (code as written) *)
+(* ------------------------------------------------------------------ HISTORICAL refutations: the rule set [pre_fix]
+   of the tree before /repo 937818d4 / 1f19b621 / cce56f21 / 556af94a; the code that exists is [as_written] *)
 Definition cx_segwit : xctx := mkXctx false (fun _ => false) (fun _ => 34).
 Definition cx_legacy : xctx := mkXctx false (fun k => 6 <=? k) (fun k => if 6 <=? k then 66 else 34).
 Definition ke0 : keyenv := mkKeyEnv (fun _ => repeat 0 33) (fun _ => repeat 0 20) (fun l => l).
@@ -78,7 +79,7 @@ Ltac refute_bounded :=
 (* (a) DESIGN 10-c: threshold takes k+1 satisfactions. thresh(1,ln:older(1),aln:older(2),aln:older(3)) *)
 Definition l_n_older (t : N) : ms := MOrI MFalse (MZeroNotEqual (MOlder t)).
 Definition w_thresh : ms := MThresh 1 [l_n_older 1; MAlt (l_n_older 2); MAlt (l_n_older 3)].
-Lemma wit_bounds_refuted_thresh : ~ wit_bounds_stmt as_written.
+Lemma wit_bounds_refuted_thresh : ~ wit_bounds_stmt pre_fix.
 Proof.
   intros H.
   assert (Ht : exists t, type_of w_thresh = ROk t) by (eexists; vm_compute; reflexivity).
@@ -88,14 +89,14 @@ Proof.
 Qed.
 (* the figure is 4, the witness [1;1;0] measures 5 *)
 Example w_thresh_numbers :
-  option_map sd_wsize (sat_data (ext_of cx_segwit w_thresh)) = Some 4
+  option_map sd_wsize (sat_data (ext_of_gen pre_fix cx_segwit w_thresh)) = Some 4
   /\ s_stack (snd (sat_dissat ke0 se_locks true false w_thresh)) = WStack [PhPushOne; PhPushOne; PhPushZero]
   /\ ph_sum se_locks [PhPushOne; PhPushOne; PhPushZero] = 5.
 Proof. vm_compute. auto. Qed.
 
 (* (b) cast_dupif adds 1 byte and 2 items; `1` is 2 bytes and 1 item. dv:older(5) *)
 Definition w_dupif : ms := MDupIf (MVerify (MOlder 5)).
-Lemma wit_bounds_refuted_dupif : ~ wit_bounds_stmt as_written.
+Lemma wit_bounds_refuted_dupif : ~ wit_bounds_stmt pre_fix.
 Proof.
   intros H.
   assert (Ht : exists t, type_of w_dupif = ROk t) by (eexists; vm_compute; reflexivity).
@@ -106,7 +107,7 @@ Qed.
 
 (* (c) uncompressed keys are counted as 65 bytes, their push is 66. c:pk_h(K6) in a legacy context *)
 Definition w_unc : ms := MCheck (MPkH 6).
-Lemma wit_bounds_refuted_unc : ~ wit_bounds_stmt as_written.
+Lemma wit_bounds_refuted_unc : ~ wit_bounds_stmt pre_fix.
 Proof.
   intros H.
   assert (Ht : exists t, type_of w_unc = ROk t) by (eexists; vm_compute; reflexivity).
@@ -122,7 +123,7 @@ Qed.
 Definition llll1 : ms := MOrI MFalse (MOrI MFalse (MOrI MFalse (MOrI MFalse MTrue))).
 Definition w_andv : ms :=
   MOrB (MOrI (MAndV (MVerify llll1) MFalse) (MSha256 (repeat 0 32))) (MSwap (MCheck (MPkK 3))).
-Lemma wit_bounds_refuted_andv : ~ wit_bounds_stmt as_written.
+Lemma wit_bounds_refuted_andv : ~ wit_bounds_stmt pre_fix.
 Proof.
   intros H.
   assert (Ht : exists t, type_of w_andv = ROk t) by (eexists; vm_compute; reflexivity).
